@@ -17,6 +17,7 @@ OBLIGATIONS = ['PGA.Yaml.' + t for t in [
     'C12_tab_units_positive', 'C12_tab_property_sets',
     'C12_presentation_independent', 'C12_loads_plain', 'C12_same_quantity_same_load', 'C12_zero_like_any_value',
     'C12_missing_unit_rejected', 'C12_missing_unit_entry_rejected', 'C12_wrong_dimension_never_plain',
+    'C12_wrong_dimension_cp_never_plain',
     'C12_wrong_dimension_temperature_rejected', 'C12_F12_old_shortcut_not_plain']]
 RULE = ('a case = one synthetic library (1-4 groups; per group reference temperature given/defaulted, reference enthalpy and '
         'entropy present/absent/zero/negative, 0-8 heat-capacity points incl. zeros, range present/absent) written in one unit '
